@@ -808,6 +808,126 @@ fn c18_body(d: Dials) -> vsched::Body {
 }
 
 /// the same with chosen node names (the election compares names: upper / lower case, prefixes, ...)
+/// Three nodes. `a` and `b` converge on one link; then a third node `c` (a DIFFERENT peer, which happens to
+/// advertise the same `host:port` string — every node of this harness does, as nodes behind one NAT address or
+/// legacy name-only peers do) connects to `a`, to `b`, or to both: the link between a and b is none of its
+/// business, every pair of nodes ends with exactly one ready session per peer.
+fn c18_three_nodes_body(c_dials: &'static [(usize, usize)], simultaneous_ab: bool) -> vsched::Body {
+    with_rt(move || async move {
+        let events: L = Arc::new(Mutex::new(vec![]));
+        let nodes = [start_node("a", COOKIE, &events).await, start_node("b", COOKIE, &events).await, start_node("c", COOKIE, &events).await];
+        vsched::quiesce();
+        let mut bad = Vec::new();
+        dial(&nodes[0], &nodes[1], "pipe-ab", 0);
+        if simultaneous_ab {
+            dial(&nodes[1], &nodes[0], "pipe-ba", 0);
+        }
+        vsched::quiesce_time();
+        let describe = |s: &Vec<(String, Option<String>, ActorRef<NodeSessionMessage>)>| s.iter().map(|x| format!("{}->{:?}", x.0, x.1)).collect::<Vec<_>>();
+        let before = [sessions(&nodes[0]).await, sessions(&nodes[1]).await];
+        if before[0].len() != 1 || before[1].len() != 1 {
+            bad.push(format!("before the third node appears: a lists {:?}, b lists {:?}", describe(&before[0]), describe(&before[1])));
+        }
+        vsched::explore_schedules(true);
+        for (i, (from, to)) in c_dials.iter().enumerate() {
+            dial(&nodes[*from], &nodes[*to], ["pipe-x0", "pipe-x1", "pipe-x2"][i], 0);
+        }
+        vsched::quiesce_time();
+        vsched::explore_schedules(false);
+        // who should be connected to whom
+        let mut linked = vec![(0usize, 1usize)];
+        for (from, to) in c_dials {
+            let pair = (*from.min(to), *from.max(to));
+            if !linked.contains(&pair) {
+                linked.push(pair);
+            }
+        }
+        let mut key = Vec::new();
+        for (i, n) in nodes.iter().enumerate() {
+            let s = sessions(n).await;
+            let mut want: Vec<String> = linked.iter().filter(|(x, y)| *x == i || *y == i).map(|(x, y)| format!("{}@host", nodes[if *x == i { *y } else { *x }].name)).collect();
+            want.sort();
+            let mut have: Vec<String> = s.iter().filter(|x| x.2.get_status() == ActorStatus::Running).filter_map(|x| x.1.clone()).collect();
+            have.sort();
+            if have != want {
+                bad.push(format!("node {} should have exactly one running session for each of {want:?}; it lists {:?}", n.name, describe(&s)));
+            }
+            key.push(format!("{}:{:?}", n.name, have));
+        }
+        // the a-b link that was ready before is the same connection afterwards
+        let after = [sessions(&nodes[0]).await, sessions(&nodes[1]).await];
+        for i in 0..2 {
+            if let Some(b0) = before[i].first() {
+                if !after[i].iter().any(|x| x.0 == b0.0 && x.2.get_status() == ActorStatus::Running) {
+                    bad.push(format!("node {} closed the connection {} that a and b had agreed on, after a different node connected: it lists {:?}", nodes[i].name, b0.0, describe(&after[i])));
+                }
+            }
+        }
+        let ev = events.lock().unwrap().clone();
+        for n in nodes {
+            n.server.stop(None);
+            let _ = n.handle.await;
+        }
+        let _ = ev;
+        Outcome { key: format!("{key:?}"), violations: bad }
+    })
+}
+
+/// The third node is played by the harness (it knows the cookie and finishes an honest handshake with `a`), so it
+/// can advertise exactly the `host:port` string node `b` advertises (two machines behind one address, or the
+/// empty string of legacy name-only peers): it is a different peer, and `a`'s ready link with `b` stays.
+fn c18_same_address_third_body(simultaneous_ab: bool, empty_string: bool) -> vsched::Body {
+    with_rt(move || async move {
+        let t = two_nodes().await;
+        let mut bad = Vec::new();
+        dial(&t.a, &t.b, "pipe-ab", 0);
+        if simultaneous_ab {
+            dial(&t.b, &t.a, "pipe-ba", 0);
+        }
+        vsched::quiesce_time();
+        let describe = |s: &Vec<(String, Option<String>, ActorRef<NodeSessionMessage>)>| s.iter().map(|x| format!("{}->{:?}", x.0, x.1)).collect::<Vec<_>>();
+        let before = [sessions(&t.a).await, sessions(&t.b).await];
+        if before[0].len() != 1 || before[1].len() != 1 {
+            bad.push(format!("before the third node appears: a lists {:?}, b lists {:?}", describe(&before[0]), describe(&before[1])));
+        }
+        // what b advertises, as a sees it
+        let b_string = match t.a.server.call(NodeServerMessage::GetSessions, Some(Duration::from_millis(20))).await {
+            Ok(ractor::rpc::CallResult::Success(m)) => m.into_values().filter_map(|s| s.peer_name.map(|p| p.connection_string)).next().unwrap_or_default(),
+            _ => String::new(),
+        };
+        let (node_end, mine) = pipe("pipe-c", 0);
+        let _ = t.a.server.cast(NodeServerMessage::ConnectionOpenedExternal { stream: Box::new(node_end), is_server: true });
+        let mut peer = ScriptedPeer::new(mine.stream);
+        vsched::explore_schedules(true);
+        let how = honest_dial_cs(&mut peer, "c@host", 77, COOKIE, if empty_string { "" } else { &b_string }).await;
+        vsched::quiesce_time();
+        vsched::explore_schedules(false);
+        if how != "acknowledged" {
+            bad.push(format!("the third node's honest handshake with a ended as {how}"));
+        }
+        let after = [sessions(&t.a).await, sessions(&t.b).await];
+        let mut have: Vec<String> = after[0].iter().filter(|x| x.2.get_status() == ActorStatus::Running).filter_map(|x| x.1.clone()).collect();
+        have.sort();
+        if have != vec!["b@host".to_string(), "c@host".to_string()] {
+            bad.push(format!("a should have one running session for b@host and one for c@host (c advertises {}); it lists {:?}", if empty_string { "an empty address" } else { "the address b advertises" }, describe(&after[0])));
+        }
+        for i in 0..2 {
+            if let Some(b0) = before[i].first() {
+                if !after[i].iter().any(|x| x.0 == b0.0 && x.2.get_status() == ActorStatus::Running) {
+                    bad.push(format!("node {} closed the connection {} that a and b had agreed on, after a different node connected: it lists {:?}", if i == 0 { "a" } else { "b" }, b0.0, describe(&after[i])));
+                }
+            }
+        }
+        peer.close().await;
+        vsched::quiesce();
+        for n in [t.a, t.b] {
+            n.server.stop(None);
+            let _ = n.handle.await;
+        }
+        Outcome { key: format!("{have:?} {how}"), violations: bad }
+    })
+}
+
 fn c18_body_named(d: Dials, na: &'static str, nb: &'static str) -> vsched::Body {
     with_rt(move || async move {
         let t = two_nodes_named(na, nb).await;
@@ -968,8 +1088,11 @@ fn c18_body_named(d: Dials, na: &'static str, nb: &'static str) -> vsched::Body 
 /// the dialling half of the handshake played by the harness against an accepting node: Name(name, id), then
 /// the challenge is answered with `cookie`. Returns whether the node acknowledged.
 async fn scripted_name(peer: &mut ScriptedPeer, name: &str, connection_id: u64) {
+    scripted_name_cs(peer, name, connection_id, "peer:1").await
+}
+async fn scripted_name_cs(peer: &mut ScriptedPeer, name: &str, connection_id: u64, connection_string: &str) {
     let _ = peer
-        .send(&auth_msg(pa::authentication_message::Msg::Name(pa::NameMessage { name: name.into(), flags: Some(pa::NodeFlags { version: 1 }), connection_string: "peer:1".into(), connection_id })))
+        .send(&auth_msg(pa::authentication_message::Msg::Name(pa::NameMessage { name: name.into(), flags: Some(pa::NodeFlags { version: 1 }), connection_string: connection_string.into(), connection_id })))
         .await;
 }
 async fn scripted_finish(peer: &mut ScriptedPeer, cookie: &str) -> bool {
@@ -1007,7 +1130,10 @@ async fn scripted_finish(peer: &mut ScriptedPeer, cookie: &str) -> bool {
 /// what an honest dialling peer does: name, then follow the server's status (continue / answer an `alive`
 /// with "yes, go on" / give up and let the caller close), then the challenge exchange
 async fn honest_dial(peer: &mut ScriptedPeer, name: &str, id: u64, cookie: &str) -> &'static str {
-    scripted_name(peer, name, id).await;
+    honest_dial_cs(peer, name, id, cookie, "peer:1").await
+}
+async fn honest_dial_cs(peer: &mut ScriptedPeer, name: &str, id: u64, cookie: &str, connection_string: &str) -> &'static str {
+    scripted_name_cs(peer, name, id, connection_string).await;
     let Some(m) = peer.recv().await else { return "closed-by-node" };
     let status = match m.message {
         Some(proto::meta::network_message::Message::Auth(a)) => match a.msg {
@@ -1248,6 +1374,20 @@ pub fn c18_units(thorough: bool) -> Vec<Unit> {
             v.push(Unit::explore_split(Job::new(format!("two-nodes-named/{na}+{nb}/{d:?}"), cfg.clone(), Some(if thorough { 2 } else { 1 }), c18_body_named(d, na, nb)), 8));
         }
     }
+    // a third node (same advertised address, different name) connects while / after a and b have their link
+    for (label, dials) in [("c-dials-a", &[(2usize, 0usize)][..]), ("a-dials-c", &[(0, 2)][..]), ("c-dials-a-and-b", &[(2, 0), (2, 1)][..]), ("c-and-a-dial-each-other", &[(2, 0), (0, 2)][..]), ("c-dials-b+b-dials-c+c-dials-a", &[(2, 1), (1, 2), (2, 0)][..])] {
+        for simultaneous in [true, false] {
+            if !thorough && !simultaneous && label != "c-dials-a" {
+                continue;
+            }
+            v.push(Unit::explore_split(Job::new(format!("three-nodes/{label}/{}", if simultaneous { "ab-dialled-each-other" } else { "a-dialled-b" }), cfg.clone(), Some(if thorough { 2 } else { 1 }), c18_three_nodes_body(dials, simultaneous)), 8));
+        }
+    }
+    for simultaneous in [true, false] {
+        for empty in [false, true] {
+            v.push(Unit::explore_split(Job::new(format!("three-nodes/third-advertises-{}/{}", if empty { "an-empty-address" } else { "the-address-of-b" }, if simultaneous { "ab-dialled-each-other" } else { "a-dialled-b" }), cfg.clone(), Some(if thorough { 2 } else { 1 }), c18_same_address_third_body(simultaneous, empty)), 4));
+        }
+    }
     // the peer played by the harness: repeated / legacy connection ids; the tables are hash maps, so several
     // hash seeds are run
     for kind in [
@@ -1293,6 +1433,9 @@ fn c20_body(read_limit: usize, ending: Ending, abandon: bool) -> vsched::Body {
         let plog: L = Arc::new(Mutex::new(vec![]));
         let (p, ph) = Actor::spawn(Some("P".into()), Probe { log: plog.clone(), tag: "P", reply_delay_ms: 2 }, ()).await.expect("P");
         ractor::pg::join("pub".into(), vec![p.get_cell()]);
+        // (a group that exists when the session starts, with a member that cannot be reached remotely)
+        let (lo0, lo0h) = Actor::spawn(None, LocalOnly { log: plog.clone() }, ()).await.expect("local only");
+        ractor::pg::join("pre-mixed".into(), vec![lo0.get_cell(), p.get_cell()]);
         dial(&t.a, &t.b, "pipe-ab", read_limit);
         vsched::quiesce_time();
         let mut bad = Vec::new();
@@ -1463,6 +1606,47 @@ fn c20_body(read_limit: usize, ending: Ending, abandon: bool) -> vsched::Body {
         if remote_ref_of(p.get_id(), "pub").is_none() {
             bad.push("the original re-joined the group but its remote reference did not".into());
         }
+        // one join / leave call whose list mixes actors that cannot be reached remotely with actors that can: the
+        // former are skipped, the latter mirrored, wherever they stand in the list
+        {
+            let mlog: L = Arc::new(Mutex::new(vec![]));
+            let (lo1, lo1h) = Actor::spawn(None, LocalOnly { log: mlog.clone() }, ()).await.expect("local only");
+            let (lo2, lo2h) = Actor::spawn(None, LocalOnly { log: mlog.clone() }, ()).await.expect("local only");
+            let (r1, r1h) = Actor::spawn(None, Probe { log: mlog.clone(), tag: "R1", reply_delay_ms: 0 }, ()).await.expect("R1");
+            let (r2, r2h) = Actor::spawn(None, Probe { log: mlog.clone(), tag: "R2", reply_delay_ms: 0 }, ()).await.expect("R2");
+            for (g, list) in [
+                ("mixed-local-first", vec![lo1.get_cell(), r1.get_cell(), r2.get_cell()]),
+                ("mixed-local-middle", vec![r1.get_cell(), lo1.get_cell(), r2.get_cell(), lo2.get_cell()]),
+                ("mixed-local-last", vec![r1.get_cell(), r2.get_cell(), lo2.get_cell()]),
+            ] {
+                ractor::pg::join(g.into(), list.clone());
+                vsched::quiesce_time();
+                for (n, r) in [("R1", &r1), ("R2", &r2)] {
+                    if remote_ref_of(r.get_id(), g).is_none() {
+                        bad.push(format!("{n} joined group {g} (in one call with actors that cannot be reached remotely) but no remote reference of it is a member on the peer"));
+                    }
+                }
+                ractor::pg::leave(g.into(), list);
+                vsched::quiesce_time();
+                for (n, r) in [("R1", &r1), ("R2", &r2)] {
+                    if remote_ref_of(r.get_id(), g).is_some() {
+                        bad.push(format!("{n} left group {g} (in one call with actors that cannot be reached remotely) but its remote reference is still a member"));
+                    }
+                }
+            }
+            if remote_ref_of(p.get_id(), "pre-mixed").is_none() {
+                bad.push("a group that existed before the session (members: P and an actor that cannot be reached remotely) was announced without P".into());
+            }
+            for (r, h) in [(r1, r1h), (r2, r2h)] {
+                r.stop(None);
+                let _ = h.await;
+            }
+            for (r, h) in [(lo1, lo1h), (lo2, lo2h)] {
+                r.stop(None);
+                let _ = h.await;
+            }
+            vsched::quiesce_time();
+        }
         // an actor that appears after the session became ready: advertised when it joins a group, reachable
         // through its remote reference, gone from the group when it stops
         vsched::explore_schedules(true);
@@ -1526,6 +1710,8 @@ fn c20_body(read_limit: usize, ending: Ending, abandon: bool) -> vsched::Body {
             n.server.stop(None);
             let _ = n.handle.await;
         }
+        lo0.stop(None);
+        let _ = lo0h.await;
         p.stop(None);
         let _ = ph.await;
         Outcome { key, violations: bad }
